@@ -204,4 +204,41 @@ def encodeSlip : List Op := [.use, .use, .use, .use, .put, .use, .use]
 def reconstructSlip (n : Nat) : List Op :=
   .use :: .use :: List.replicate n .use ++ [.put, .use]
 
+/-! ## The row reader's page buffers (MIRROR of column_chunk.go:84-157, row_group.go:218-231, buffer.go:604-618)
+
+The values buffer of a decoded page comes from the process-wide `buffers` pool. A
+`columnChunkValueReader` holds one page at a time; `ReadValues` hands out `Value`s which, for
+BYTE_ARRAY / FIXED_LEN_BYTE_ARRAY columns, point INTO that buffer, and the rows built from them
+stay with the caller. The reader lets go of the page in `clear()` — reached from `ReadValues` at the
+end of the page (:138), `SeekToRow` (:152), `Reset` (:109) and `Close` (:119). For byte-array
+columns `newRowGroupRows` sets `detach` (row_group.go:228) and `clear` calls
+`releaseAndDetachValues`: the values buffer is NOT put back (left to the GC), so the caller's rows
+stay valid "past the page lifetime" (buffer.go:690-704). For the other column kinds the `Value`s are
+copies and `clear` puts the buffer back.
+
+As a program on the values buffer of one page: `nRead + 1` touches while the page is decoded and
+read, the release action of the path that ends the page, then `nKept` touches by the caller through
+the rows it kept (only byte-array columns: the rows of other columns do not reference the buffer).
+`honours` says whether the release path honours `detach`. -/
+def rowReaderProg (byteArray honours : Bool) (nRead nKept : Nat) : List Op :=
+  .use :: List.replicate nRead .use ++
+    (if byteArray then
+      (if honours then List.replicate nKept .use else .put :: List.replicate nKept .use)
+    else [.put])
+
+theorem disc_replicate_use (n : Nat) : disc (List.replicate n .use) = true := by
+  induction n with
+  | zero => rfl
+  | succ n ih => simp [List.replicate_succ, disc, ih]
+
+/-- every release path that honours `detach` respects the discipline, whatever the caller keeps -/
+theorem rowReaderProg_disc (byteArray : Bool) (nRead nKept : Nat) :
+    disc (rowReaderProg byteArray true nRead nKept) = true := by
+  cases byteArray <;> simp [rowReaderProg, disc, disc_replicate_append, disc_replicate_use]
+
+/-- a release path that ignores `detach` does not, as soon as the caller keeps one row -/
+theorem rowReaderSlip_disc (nRead nKept : Nat) :
+    disc (rowReaderProg true false nRead (nKept + 1)) = false := by
+  simp [rowReaderProg, disc, disc_replicate_append, List.replicate_succ]
+
 end PqModel.PoolProto
